@@ -72,6 +72,10 @@ func render(v any) string {
 		var out []int64
 		_ = x.AssignTo(&out)
 		return fmt.Sprintf("%v", out)
+	case pgtype.Int4Array:
+		var out []int32
+		_ = x.AssignTo(&out)
+		return fmt.Sprintf("%v", out)
 	case pgtype.ByteaArray:
 		var out [][]byte
 		_ = x.AssignTo(&out)
